@@ -71,6 +71,9 @@ CONSUMERS = {
     "eval-self-expanding": ("(defmacro m [n] (if (> n 0) (tuple 'm (- n 1)) 0))", "(eval (tuple 'm D))"),
     "eval-nested-macro-body": ("(defmacro w [x] (tuple 'do x))", "(eval (nest-form D 'w 1))"),
     "compile-qq-deep-alternation": "(var t 'x) (repeat (max 1 (div D 1000)) (var u (tuple 'unquote t)) (repeat 1000 (set u (tuple u))) (set t (tuple 'quasiquote u))) (compile t)",
+    # many quasiquote/unquote cycles, each just under the per-form limit: the remaining compiler depth, not a fresh budget, must bound the total
+    "compile-qq-many-cycles": "(var t 'x) (repeat (max 1 (div D 200)) (var u (tuple 'unquote t)) (repeat 900 (set u (tuple u))) (set t (tuple 'quasiquote u))) (compile t)",
+    "compile-qq-many-cycles-short": "(var t 'x) (repeat (max 1 (div D 20)) (var u (tuple 'unquote t)) (repeat 90 (set u (tuple u))) (set t (tuple 'quasiquote u))) (compile t)",
     "compile-deep-data-in-quasiquote": "(compile (tuple 'quasiquote (nest-tuple D)))",
     "compile-deep-splice": "(var t 'x) (repeat D (set t (tuple 'quasiquote (tuple (tuple 'splice (tuple 'quote (tuple t))))))) (compile t)",
     "equal-deep-tuples": "(= (nest-tuple D) (nest-tuple D))",
